@@ -34,12 +34,14 @@ fn build(hist: &[Json]) -> (Module, FunctionId) {
         let p0 = m.locals.add(ValType::I32);
         let mut fb = FunctionBuilder::new(&mut m.types, &[ValType::I32, ValType::I32], &[]);
         let mut real: Vec<InstrSeqId> = vec![fb.func_body_id()];
-        for e in hist {
+        for (k, e) in hist.iter().enumerate() {
             let op = e["op"].as_str().unwrap();
             let sq = e["seq"].as_i64().unwrap();
             let pos = e["pos"].as_u64().unwrap() as usize;
             let d = e["d"].as_i64().unwrap();
-            let at_end = |fb: &mut FunctionBuilder, s: InstrSeqId| fb.instr_seq(s).instrs().len() == pos;
+            // at the end of a sequence the appending API and the positional API (position = length) must do the same:
+            // which of the two is used alternates with the operation's place in the history
+            let at_end = |fb: &mut FunctionBuilder, s: InstrSeqId| fb.instr_seq(s).instrs().len() == pos && (k + hist.len()) % 2 == 0;
             match op {
                 "unit" => {
                     let s = real[sq as usize];
